@@ -157,6 +157,7 @@ type Exec struct {
 	lastNow      *Term
 	onceKeys     map[string]*Object
 	initWritten  map[*Object]bool
+	cur          *Frame
 	replace      map[string]string
 	funcIndex    map[string]*ssa.Function
 	varCache     map[int][]int
@@ -285,7 +286,16 @@ func (ex *Exec) runPath(entry *ssa.Function) {
 					}
 				case *unsupportedErr:
 					kind = "unsupported"
-					ex.addInconclusive("unsupported", e.msg, "")
+					where := ""
+					if ex.cur != nil {
+						where = ex.fnName(ex.cur.fn) + " " + ex.posStr(ex.cur.curPos)
+						n := 0
+						for f := ex.cur.caller; f != nil && n < 6; f = f.caller {
+							where += " <- " + f.fn.Name() + ":" + ex.posStr(f.curPos)
+							n++
+						}
+					}
+					ex.addInconclusive("unsupported", e.msg, where)
 				default:
 					panic(r)
 				}
@@ -355,9 +365,16 @@ func (ex *Exec) feasibleM(c *Term) (bool, map[string]*Term) {
 		ex.pmHits++
 		return true, nil
 	}
-	r, m, _ := ex.solver.Check(ex.withAxioms(append(ex.slice(c), c)), true)
+	sl := ex.slice(c)
+	if ex.knownInfeasible(c) { // models_c06.go: c was refuted earlier under assertions that are all still in pc
+		return false, nil
+	}
+	r, m, _ := ex.solver.Check(ex.withAxioms(append(sl, c)), true)
 	if r == Sat {
 		return true, m
+	}
+	if r == Unsat {
+		ex.noteInfeasible(c, sl)
 	}
 	return r != Unsat, nil
 }
@@ -1087,6 +1104,7 @@ func (ex *Exec) runBlock(fr *Frame) (bool, Value, *goPanic) {
 		if p := instrs[i].Pos(); p.IsValid() {
 			fr.curPos = p
 		}
+		ex.cur = fr
 		if ex.steps > ex.maxSteps {
 			ex.end("budget", fmt.Sprintf("step budget %d exhausted", ex.maxSteps))
 		}
